@@ -112,4 +112,5 @@ func runC17(c *eng.Ctx) {
 		return okL && (lf.String() == "+0" || lf.String() == "+1*pos +1")
 	})
 	runC17Concat(c)
+	runC17Fold(c)
 }
